@@ -466,8 +466,11 @@ def np_eval(var: Var, env: dict):
         return f
 
     A = opn.attrs
-    if k == "Add": out = [ins[0] + ins[1]]
+    if isinstance(opn, Function):
+        out = sub(opn.func_graph)(*ins)
+    elif k == "Add": out = [ins[0] + ins[1]]
     elif k == "Sub": out = [ins[0] - ins[1]]
+    elif k == "Abs": out = [np.abs(ins[0])]
     elif k == "Mul": out = [ins[0] * ins[1]]
     elif k == "Neg": out = [-ins[0]]
     elif k == "Relu": out = [np.maximum(ins[0], 0)]
